@@ -73,7 +73,8 @@ specs["C02"] = {"runs": [
     run(CMD + "reporter:Harness_day_item", Q, {"E": 2, "bookshapes": 4}, "real", cover=["item"], note="book shapes {x},{x,y},{y},{} per recipe (the empty recipe included)"),
     run(CMD + "register:Harness_old_reg_reporter", Q, {"E": 2}, "real", cover=["printed"]),
     run(CMD + "reporter:Harness_day_item", QT, {"E": 1, "bookshapes": 4, "earlier": 1}, "real", cover=["item"], note="a day reported after another day: what it shows does not depend on the earlier day (state kept between days)"),
-    run("cmd/hranoprovod-cli:Harness_app_pipeline", Q, {"command": 0, "posbook": 1, "E": 1, "shapes": 3}, "real", cover=["ran"], note="whole application, `register --use-old-reg-reporter`: book and log as text with symbolic values through the real parser and resolver (nested recipes, repeated ingredients, forward/backward references), two days, against the reference model; book amounts assumed positive"),
+    run("cmd/hranoprovod-cli:Harness_app_period", QT, {"R": 2, "command": 0}, cover=["ran"], note="whole application, `register`: every selected day in file order (symbolic dates in any order, period given globally / on the sub-command / both)"),
+    run("cmd/hranoprovod-cli:Harness_app_pipeline", Q, {"command": 0, "posbook": 1, "E": 1, "shapes": 4}, "real", cover=["ran"], note="whole application, `register --use-old-reg-reporter`: book and log as text with symbolic values through the real parser and resolver (nested recipes, repeated ingredients, forward/backward references), two days, against the reference model; book amounts assumed positive"),
     run("cmd/hranoprovod-cli:Harness_app_pipeline", QT, {'command': 9, 'posbook': 1, 'E': 1, 'shapes': 3}, "real", cover=["ran"], note='the same through the default template (rendered by the template interpreter)'),
     run("cmd/hranoprovod-cli:Harness_app_pipeline", T, {"command": 0, "posbook": 0, "E": 2, "shapes": 4}, "real", cover=["ran"], max_paths=2000000),
     run("_root:Harness_merge_duplicates", QT, {"E": 5}, "real", cover=["merged"], note="every repetition pattern of <=5 entries over three foods"),
@@ -86,6 +87,7 @@ specs["C02"] = {"runs": [
 specs["C03"] = {"runs": [
     run(CMD + "balance:Harness_balance_modes", Q, {"F": 2}, "real", cover=["printed"], note="every set of <=2 category paths from the 14 paths over {a,b} of depth <=3, each food logged once or twice, 3 display modes"),
     run(CMD + "balance:Harness_balance_modes", T, {"F": 3}, "real", cover=["printed"], note="all 469 path sets"),
+    run(CMD + "balance:Harness_balance_modes", QT, {"F": 2, "deep": 1}, "real", cover=["printed"], note="category paths of up to nine segments (six paths, every set of <=2)"),
     run(CMD + "balance:Harness_golden_concrete", QT, {}, "fp", owned=["golden-"], cover=["golden-balance"], concrete_fmt=True, note="translator validation: the executor, all-concrete, reproduces the repository's five golden balance outputs byte for byte from testAssets/{food,log}.yaml"),
     run(CMD + "balance:Harness_balance_single", Q, {"F": 2, "catalogue": 6}, "real", cover=["printed"], note="--single-element X in all three modes: foods defining X (any amount incl. 0), defined without X, undefined"),
     run(CMD + "balance:Harness_balance_single", T, {"F": 3, "catalogue": 14}, "real", cover=["printed"]),
@@ -218,6 +220,8 @@ specs["C14"] = {"runs": [
     run(CMD + "print:Harness_print_roundtrip", T, {"n": 4, "layouts": 3}, render_max=6, cover=["read-back"]),
     run(CMD + "options:Harness_settings_precedence", QT, {}, owned=["print-layout=parse-layout"], cover=["loaded"]),
     run("_root:Harness_merge_duplicates", QT, {"E": 5}, "real", cover=["merged"], note="duplicates of a day merged: every repetition pattern of <=5 entries"),
+    run("cmd/hranoprovod-cli:Harness_app_pipeline", QT, {"command": 8, "crlf": 1, "shapes": 2}, "real", cover=["ran"], note="whole application, `print` on files saved with CRLF line endings"),
+    run("cmd/hranoprovod-cli:Harness_app_period", QT, {"R": 2, "command": 5}, cover=["ran"], note="whole application, `print` x periods: given globally, on the sub-command or both"),
     run("cmd/hranoprovod-cli:Harness_app_pipeline", QT, {'command': 8}, "real", cover=["ran"], note='whole application, `print`: days in order, foods merged, quantities'),
 
  ], "assumptions": ["%0.2f renders to 4..6 bytes of the shape [-]digits.digits that strconv.ParseFloat accepts, and rendering ParseFloat(render(v)) gives render(v) again (library facts assumed as axioms)", "names as in C04; note keys/texts with ASCII letter/digit ends", PF],
